@@ -14,10 +14,10 @@ ID = "C18"
 MODULE = "PotasscoVerif.Props.C18"
 THEOREMS = ["PotasscoVerif.C18.C18_blocked_accounting", "PotasscoVerif.C18.C18_callback_entry_unblocked", "PotasscoVerif.C18.C18_immediate",
             "PotasscoVerif.C18.C18_callstart_step", "PotasscoVerif.C18.C18_blocked_path_no_callback", "PotasscoVerif.C18.C18_no_loss",
-            "PotasscoVerif.C18.C18_no_clear_reachable", "PotasscoVerif.C18.C18_delivered_at_most_once", "PotasscoVerif.C18.C18_pristine_loses",
+            "PotasscoVerif.C18.C18_no_clear_reachable", "PotasscoVerif.C18.C18_delivered_at_most_once", "PotasscoVerif.C18.C18_pristine_loses", "PotasscoVerif.C18.C18_blocked_keeps_first", "PotasscoVerif.C18.C18_blocked_first_remembered",
             "PotasscoVerif.C18.C18_repaired_keeps"]
 PARTIAL = {"callback bodies": "a callback is one opaque step pair (entry, exit) during which signals may arrive; block/unblock calls made from inside a callback are not modelled",
-           "C18_one_remembered(first)": "that the remembered signal is the FIRST arrival when arrivals do not overlap is checked by the trace oracle only"}
+           "C18_one_remembered(first)": "that the remembered signal is the FIRST arrival when arrivals do not overlap is checked by the trace oracle (rule C18:not-first-remembered) and follows in the model from C18_blocked_keeps_first"}
 BSIZES = (4096,)
 RULE = ("seeded schedules: a balanced main program of nested block/unblock(deliver?)/work operations and a choice list mixing atomic steps with signal arrivals (distinct or repeated "
         "signal numbers, bursts, arrivals inside callbacks, callbacks returning false); thorough adds all schedules with <= 3 arrivals over all main programs of <= 4 operations up to 14 choices; "
@@ -121,6 +121,10 @@ def check_trace(c, toks):
         # to deliver it or to drop it: unless an arrival interrupts right there, the next observation shows an empty slot
         if prev is not None and prev[0] == 11 and i != 1 and p != 0:
             return ("C18:stale-remembered-signal", "signal %d is still remembered after the outermost release (it would be delivered by some later, unrelated release)" % p)
+        # "of the signals that arrive while blocked exactly one is remembered — the first, when arrivals do not interrupt one another":
+        # a blocked arrival whose check (yield 3) saw a remembered signal and that was not interrupted before its next step must not store
+        if prev is not None and prev[0] == 3 and prev[2] != 0 and i == 4:
+            return ("C18:not-first-remembered", "a blocked arrival replaced the remembered signal %d although nothing interrupted it between its check and its store" % prev[2])
         if i == 0:
             if mi < len(main):
                 op = main[mi]; mi += 1
